@@ -5,7 +5,7 @@ _ENG = {"crate": "core", "bin": "sv-c15", "machine": "c15", "nontrivial_min_ops"
 PROP = {
     "generated": ["ReconEqConsts"],
     "lean_modules": ["SwimVerif.Model.ReconEq", "SwimVerif.Model.ReconEqProto", "SwimVerif.Proofs.ReconEq",
-                     "SwimVerif.Proofs.ReconEqCmp", "SwimVerif.Model.Recon", "SwimVerif.Model.ReconProto",
+                     "SwimVerif.Proofs.ReconEqCmp", "SwimVerif.Proofs.ReconEqValid", "SwimVerif.Proofs.ReconEqMat", "SwimVerif.Model.Recon", "SwimVerif.Model.ReconProto",
                      "SwimVerif.Generated.ReconTables", "SwimVerif.Generated.ReconEqConsts"],
     "engines": [
         # printer output only (what the backpressure layer holds as keys): one value through two of the three printers,
@@ -20,6 +20,11 @@ PROP = {
         dict(_ENG, name="texts", cases={"quick": 6000, "thorough": 120000}, min_shard=400, gen_args=["texts"]),
         # damaged (mostly invalid) texts against themselves, the original, another damaged text
         dict(_ENG, name="damaged", cases={"quick": 4000, "thorough": 80000}, min_shard=400, gen_args=["damaged"]),
+        # every pair of the compact / standard prints of ALL values with at most 4 (thorough: 5) nodes over a one-letter
+        # alphabet (the size bookkeeping only sees structure): 183 184 (thorough: 10.5 million) pairs put to the real
+        # functions; every pair that violates the property is written out, judged by the monitor and compared with the model
+        dict(_ENG, name="exhaustive", shards=8, cases={"quick": 1, "thorough": 1}, shrink=False,
+             gen_args={"quick": ["exhaustive", "4", "8"], "thorough": ["exhaustive", "5", "8"]}),
         # consequence: 2..4 values in 1..3 spellings each pushed as keys of `Update`s into the real MapOperationQueue;
         # one entry per value must come out, holding the last update (monitor only: which of two unequal hashes
         # collide inside hashbrown is not modelled)
